@@ -185,16 +185,55 @@ PowHits(p, k) ==
             ELSE FALSE
     IN Loop(<< OneV >>, p, k)
 
-(* Coefficient-rewriting mappers (IdentityMapper subclasses overriding map_constant) *)
-Maps == {"dbl", "neg", "inc"}
+(***************************************************************************)
+(* Mappers: IdentityMapper subclasses.  A mapper is described by the case  *)
+(* fields                                                                  *)
+(*   map    the constant rule f (map_constant): "dbl" 2c, "neg" -c,        *)
+(*          "inc" c+1, "half" (an even integer is halved, every other      *)
+(*          constant handed back), "keep" (every constant handed back)     *)
+(*   mmode  "all": f is applied to every constant; "only": f is applied to *)
+(*          the constants equal to a member of msel, every other constant  *)
+(*          is handed back as the identical object                         *)
+(*   msel   the selected constants (a sequence of numbers)                 *)
+(*   mbase  the variable rule (map_variable) renames the base variable x   *)
+(*          to this name ("x": the base is handed back)                    *)
+(*   mbind  the variable rule replaces the parameter p<i> (a coefficient   *)
+(*          [k |-> "sym", n |-> i, d |-> 1], pymbolic Variable("p<i>")) by *)
+(*          the number mbind[i]; a bound value is not passed through f     *)
+(* so that a mapper may rewrite every coefficient, any subset of the       *)
+(* coefficient positions (also none), and/or only the base.  map = "none"  *)
+(* means that no mapper is applied at all.                                 *)
+(***************************************************************************)
+Maps == {"dbl", "neg", "inc"}                 \* the rules that change every constant they see
+MapFns == Maps \cup {"half", "keep"}
+IsSym(v) == v.k = "sym"
+HasSym(data) == \E i \in 1..Len(data) : IsSym(data[i].c)
 MapCoef(map, c) == CASE map = "dbl" -> VMul(IntV(2), c)
                      [] map = "neg" -> VNeg(c)
                      [] map = "inc" -> VAdd(c, OneV)
-MapSpec(map, p) == Trim([i \in 1..Len(p) |-> IF IsZeroV(p[i]) THEN ZeroV ELSE MapCoef(map, p[i])])
-\* IdentityMapper.map_polynomial: data is a *generator*; all(... zip(data, expr.data)) consumes
-\* it up to and including the first rewritten coefficient, the constructor gets the rest
-\* (Dev_GeneratorConsumed).  All three mappers change every coefficient they see.
-ImplMap(map, sd) ==
+                     [] map = "half" -> IF c.k = "int" /\ (c.n % 2) = 0 THEN IntV(c.n \div 2) ELSE c
+                     [] map = "keep" -> c
+Selected(m, v) == m.mmode = "all" \/ \E i \in 1..Len(m.msel) : IsNum(v) /\ ValEq(m.msel[i], v)
+\* what the mapper m (a record with the fields above, e.g. the case) makes of one coefficient
+MapCoefM(m, v) ==
+    IF IsSym(v) THEN (IF v.n >= 1 /\ v.n <= Len(m.mbind) THEN m.mbind[v.n] ELSE v)
+    ELSE IF ~IsNum(v) THEN v
+    ELSE IF Selected(m, v) THEN MapCoef(m.map, v) ELSE v
+\* the meaning of a mapper on a polynomial: every coefficient goes through the mapper once,
+\* exponents and the order of the terms stay
+MapData(m, sd) == [i \in 1..Len(sd) |-> Ent(sd[i].e, MapCoefM(m, sd[i].c))]
+\* does the mapper rewrite anything of (base, data) at all ?
+MapTouches(m, sd) == m.mbase # "x" \/ \E i \in 1..Len(sd) : MapCoefM(m, sd[i].c) # sd[i].c
+\* A-layer, IdentityMapper.map_polynomial as the code has it: base and every coefficient are
+\* mapped, the data is a tuple; when the base and every coefficient came back as the identical
+\* object the argument itself is returned, otherwise a new polynomial with the mapped parts.
+\* On contents both branches are MapData (the identity decision is the S-layer machine
+\* alg = "map" of C19_Algo).
+ImplMap(m, sd) == MapData(m, sd)
+\* the historical Dev_GeneratorConsumed (C19-F1, repaired): data was a *generator*,
+\* all(... zip(data, expr.data)) consumed it up to and including the first rewritten coefficient,
+\* the constructor got the rest.  Kept for the attribution of a regression.
+ImplMapGen(map, sd) ==
     IF Len(sd) = 0 THEN sd      \* nothing differs: "return expr"
     ELSE [i \in 1..(Len(sd) - 1) |-> Ent(sd[i + 1].e, MapCoef(map, sd[i + 1].c))]
 
@@ -292,24 +331,39 @@ Operand(inp, mo) == IF mo.r = "poly" THEN mo.d ELSE inp
 
 \* fractions.Fraction is not one of pymbolic's constant classes: a mapper that meets one
 \* refuses it ("invalid foreign object"); such inputs are outside the model
-HasFrac(data) == \E i \in 1..Len(data) : data[i].c.k \notin {"int", "bool"}
+HasFrac(data) == \E i \in 1..Len(data) : data[i].c.k \notin {"int", "bool", "sym"}
+\* An observed mapper result additionally carries b (the name of its base variable, "?" when
+\* the base is not a variable) and id (1 when the mapper returned the very object it was given).
+\* Judged: the base is the renamed base; every coefficient is what the mapper makes of it -
+\* whatever subset of the positions the mapper rewrites.
 MapClauses(c, inp, mo, which) ==
     IF c.map = "none" THEN << >>
     ELSE IF HasFrac(inp) /\ mo.r = "err" THEN << F("SKIP", "map-foreign-constant") >>
     ELSE IF mo.r # "poly" THEN (IF mo.r \in {"err", "timeout"} THEN ObsFail(mo, "map") ELSE << F("SKIP", "map") >>)
     ELSE IF ~DataOK(mo.d) THEN << F("SKIP", "map") >>
-    ELSE LET got == FromData(mo.d) exp == MapSpec(c.map, FromData(inp)) IN
-         IF PBad(got) \/ PBad(exp) THEN << F("SKIP", "map") >>
-         ELSE IF PEq(got, exp) THEN << >>
-         \* attribution: exactly the terms up to and including the first rewritten one are missing
-         ELSE << F("map-coeffs", IF DataEq(mo.d, ImplMap(c.map, inp)) THEN "lost-through-first-rewritten" ELSE "other") >>
+    ELSE LET expd == MapData(c, inp)
+             \* attribution of a wrong result: the argument itself came back although the mapper
+             \* rewrites a part of it / exactly the terms up to and including the first rewritten
+             \* one are missing (Dev_GeneratorConsumed) / anything else
+             at == IF mo.id = 1 THEN "returned-argument"
+                   ELSE IF c.mmode = "all" /\ c.map \in Maps /\ ~HasSym(inp) /\ DataEq(mo.d, ImplMapGen(c.map, inp))
+                        THEN "lost-through-first-rewritten" ELSE "other"
+         IN
+         (IF mo.b = c.mbase THEN << >> ELSE << F("map-base", at) >>)
+         \o (IF HasSym(expd) THEN << F("SKIP", "map") >>                \* a parameter stays unbound: not generated
+             ELSE IF HasSym(mo.d) THEN << F("map-coeffs", at) >>         \* a bound parameter is still there
+             ELSE LET got == FromData(mo.d) exp == FromData(expd) IN
+                  IF PBad(got) \/ PBad(exp) THEN << F("SKIP", "map") >>
+                  ELSE IF PEq(got, exp) THEN << >> ELSE << F("map-coeffs", at) >>)
 
 PolyClauses(c, o) ==
     LET pd == Operand(c.P, o.mp)
         qd == Operand(c.Q, o.mq)
         twoPolys == c.op \in BinOps2
-        a == FromData(pd)
-        b == IF twoPolys THEN FromData(qd) ELSE << >>
+        \* (a coefficient that still is a parameter has no number: the operand is out of model,
+        \* the mapper clauses have said why)
+        a == IF HasSym(pd) THEN << Unrep >> ELSE FromData(pd)
+        b == IF ~twoPolys THEN << >> ELSE IF HasSym(qd) THEN << Unrep >> ELSE FromData(qd)
         npts == Len(c.pts)
         specVals(p) == [i \in 1..npts |-> PVal(p, c.pts[i])]
         resOK == \A i \in 1..Len(o.res) : IsPolyObs(o.res[i])
@@ -319,13 +373,28 @@ PolyClauses(c, o) ==
                                ELSE R(i + 1)
                    IN R(1)
         mapPart == MapClauses(c, c.P, o.mp, "P") \o (IF twoPolys THEN MapClauses(c, c.Q, o.mq, "Q") ELSE << >>)
+        \* all values are taken at base variable c.mbase = point: an operand whose base is another
+        \* variable (the mapper failed or did not rename it - judged above) has no value there
+        baseOf(mo) == IF mo.r = "poly" THEN mo.b ELSE "x"
+        basesOK == baseOf(o.mp) = c.mbase /\ (~twoPolys \/ baseOf(o.mq) = c.mbase)
         \* the evaluator on the operands: value = sum c_i x^i
         evalPart == ValClause(o.vp, specVals(a), "eval-operand", "P")
                     \o (IF twoPolys THEN ValClause(o.vq, specVals(b), "eval-operand", "Q") ELSE << >>)
+        \* the value of the mapped polynomial is the value of the polynomial with the mapped
+        \* coefficients (the mapping applied to the value)
+        mapVal(inp, mo, vs, which) ==
+            IF c.map = "none" \/ mo.r # "poly" \/ HasSym(MapData(c, inp)) THEN << >>
+            ELSE LET exp == FromData(MapData(c, inp)) IN
+                 IF PBad(exp) THEN << F("SKIP", "map-value") >>
+                 ELSE ValClause(vs, specVals(exp), "map-value", which)
+        mapValPart == mapVal(c.P, o.mp, o.vp, "P") \o (IF twoPolys THEN mapVal(c.Q, o.mq, o.vq, "Q") ELSE << >>)
     IN
-    IF ~(c.op \in PolyOps /\ DataOK(c.P) /\ DataOK(c.Q) /\ DataOK(pd) /\ DataOK(qd)) \/ PBad(a) \/ PBad(b)
+    IF ~(c.op \in PolyOps /\ DataOK(c.P) /\ DataOK(c.Q) /\ DataOK(pd) /\ DataOK(qd))
     THEN << F("SKIP", "input") >>
-    ELSE mapPart \o evalPart \o
+    ELSE mapPart \o
+    (IF PBad(a) \/ PBad(b) THEN << F("SKIP", "input") >>
+     ELSE IF ~basesOK THEN << F("SKIP", "operand-base") >>
+     ELSE mapValPart \o evalPart \o
     (IF c.op \notin {"divmod", "divmods"}
      THEN \* ---- ring operations
           IF c.op = "pow" /\ c.k < 0
@@ -378,7 +447,7 @@ PolyClauses(c, o) ==
                   \o (IF Len(o.vr) # 2 \/ (c.op = "divmod" /\ Len(o.vq) # npts) THEN << F("SKIP", "values") >>
                       ELSE IF \E i \in 1..Len(o.vr) : \E j \in 1..Len(o.vr[i]) : IsErr(o.vr[i][j])
                            THEN << F("op-value-raised", "") >>
-                      ELSE ValClause(o.vp, hom, "divmod-value", "")))
+                      ELSE ValClause(o.vp, hom, "divmod-value", ""))))
 
 \* record-level verdict: the failing clauses (without SKIP markers), "SKIP" when nothing
 \* failed but something could not be decided
@@ -388,7 +457,8 @@ HasSkip(cls) == \E i \in 1..Len(cls) : cls[i].cl = "SKIP"
 \* model drift (never a verdict): the recorded data tuple differs from the A-layer's prediction
 PolyDrift(c, o) ==
     LET pd == Operand(c.P, o.mp) qd == Operand(c.Q, o.mq) IN
-    IF c.op \in {"divmod"} /\ Len(o.res) = 2 /\ IsPolyObs(o.res[1]) /\ IsPolyObs(o.res[2]) /\ Len(qd) > 0
+    IF HasSym(pd) \/ HasSym(qd) THEN ""
+    ELSE IF c.op \in {"divmod"} /\ Len(o.res) = 2 /\ IsPolyObs(o.res[1]) /\ IsPolyObs(o.res[2]) /\ Len(qd) > 0
     THEN LET im == ImplDivMod(pd, qd) IN
          IF DataEq(o.res[1].d, im[1]) /\ DataEq(o.res[2].d, im[2]) THEN "" ELSE "impl-differs"
     ELSE IF c.op \notin {"divmod", "divmods"} /\ ~(c.op = "pow" /\ c.k < 0)
